@@ -246,6 +246,11 @@ def _run(ctx, root):
     ctx.coverage.update({"states": states, "transitions": transitions, "traces_validated_against_impl": traces,
                          "samples": samples + [{"config": list(configs[1])}],
                          "bounds": {"calls": len(specs), "configs": len(configs), "pair_alphabet": len(ids), "seeds": seeds, "locales": langs}})
+    tst = threads(ctx, dirs)
+    ctx.coverage["states"] += tst.evaluations
+    ctx.coverage["transitions"] += tst.transitions
+    ctx.coverage["traces_validated_against_impl"] += tst.evaluations
+    states, transitions = ctx.coverage["states"], ctx.coverage["transitions"]
     print(f"[C06] calls={len(specs)} configs={len(configs)} pair_alphabet={len(ids)} states={states} transitions={transitions} violations={len(viol)}", flush=True)
 
 
@@ -298,8 +303,174 @@ def schedules(ctx, specs, K, dirs, record):
         os.chdir(old)
 
 
+# ------------------------------------------------------------------ (d) thread interleavings, preemption-bounded
+_TW = {}
+TA = "===A===\nMETA:\n  TYPE::X\n---\nK::a->b\nB:\n  C::x y\n===END===\n"
+TB = "===B===\nM::1.0\nN::[true,k::v]\n§1::S\n  Q::\"q\"\n===END===\n"
+TV1 = '===I===\nMETA:\n  TYPE::X\n  VERSION::"1.0"\n---\nGENW:\n  NAME::n\n  STATUS::ACTIVE\n  ZULU::1\n  ALPHA::2\n===END===\n'
+TV2 = '===J===\nMETA:\n  TYPE::X\n  VERSION::"1.0"\n---\nGENW:\n  NAME::m\n  STATUS::active\n  COUNT::"5"\n===END===\n'
+
+
+def _thread_work(dirs):
+    """name -> (fn0, fn1): two callables run by two threads; results are JSON text (timestamps masked)."""
+    if _TW:
+        return _TW
+    import asyncio
+    from octave_mcp.core.emitter import emit
+    from octave_mcp.core.gbnf_compiler import GBNFCompiler
+    from octave_mcp.core.parser import parse, parse_with_warnings
+    from octave_mcp.core.schema_extractor import extract_schema_from_document
+    from octave_mcp.core.sealer import extract_seal, seal_document
+    from octave_mcp.core.validator import Validator
+    from octave_mcp.mcp.validate import ValidateTool
+    from octave_mcp.mcp.write import WriteTool
+
+    def J(o):
+        return json.dumps(pm.mask(o), sort_keys=True, default=repr)
+
+    def canon(t):
+        def f():
+            d, ws = parse_with_warnings(t)
+            return J({"c": emit(d), "w": ws, "s": extract_seal(seal_document(d))})
+        return f
+
+    sd = extract_schema_from_document(parse(GENW))
+    sd2 = extract_schema_from_document(parse(pool.HOLO_SCHEMA))
+
+    def val(t):
+        def f():
+            d = parse(t)
+            v = Validator(schema=None)
+            errs = v.validate(d, strict=False, section_schemas={sd.name: sd})
+            return J({"e": [(e.code, e.field_path, e.message) for e in errs], "r": v.routing_log.to_dict()})
+        return f
+
+    def gb(s):
+        return lambda: GBNFCompiler().compile_schema(s, include_envelope=True)
+
+    vt_, wt_ = ValidateTool(), WriteTool()      # ONE shared instance each, as in the server
+    wd = tempfile.mkdtemp(prefix="vt-c06t-", dir="/dev/shm")
+    _TW["__wd"] = wd
+
+    def tool_v(t, **kw):
+        def f():
+            loop = asyncio.new_event_loop()
+            try:
+                return J(loop.run_until_complete(vt_.execute(content=t, schema="GENW", **kw)))
+            finally:
+                loop.close()
+        return f
+
+    def tool_w(t, name):
+        def f():
+            loop = asyncio.new_event_loop()
+            path = os.path.join(wd, f"{os.getpid()}-{name}")     # workers are forked: one file per process
+            try:
+                if os.path.exists(path):
+                    os.unlink(path)
+                r = loop.run_until_complete(wt_.execute(target_path=path, content=t, lenient=True, schema="META"))
+                return J(r).replace(path, "<wd>/" + name)
+            finally:
+                loop.close()
+        return f
+
+    _TW.update({
+        "canon": (canon(TA), canon(TB)),
+        "validator": (val(TV1), val(TV2)),
+        "gbnf": (gb(sd), gb(sd2)),
+        "tool.validate": (tool_v(TV1), tool_v(TV2, fix=True, grammar_hint=True)),
+        "tool.write": (tool_w(TA, "a.oct.md"), tool_w(TB, "b.oct.md")),
+        "canon+validate": (canon(TA), tool_v(TV2, fix=True)),
+    })
+    return _TW
+
+
+_TREF = {}
+
+
+def check_thread_case(case) -> Res:
+    from ..env import threadsched as ts
+    name, gran, start, switches = case
+    fns = _TW[name]
+    switches = tuple(tuple(x) for x in switches)
+    results, n, taken = ts.run_schedule(fns, start, switches, gran)
+    viol = []
+    for i in (0, 1):
+        if results[i] != ("ok", _TREF[name][i]):
+            obs = results[i][1] if results[i] else None
+            viol.append(dict(descriptor=f"threads:{name}:thread{i}-differs-from-sequential", case=dict(pair=name, granularity=gran, start=start, switches=[list(x) for x in switches]),
+                             observed=str(obs)[:600], expected=str(_TREF[name][i])[:300]))
+    out = "ok" if not viol else "violations"
+    if len(taken) < len(switches):
+        out = "unreached"
+    return Res(out, nontrivial=(name, gran, start, switches) if len(taken) == len(switches) and switches else None, violations=viol, transitions=sum(n))
+
+
+def threads(ctx, dirs):
+    from ..env import threadsched as ts
+    old = os.getcwd()
+    os.chdir(dirs["A"])
+    try:
+        work = _thread_work(dirs)
+        cases = []
+        bounds = {}
+        for name, fns in work.items():
+            if name.startswith("__"):
+                continue
+            for _ in range(2):                       # warm-up: lazy imports, regex caches
+                ref = [fns[0](), fns[1]()]
+            _TREF[name] = ref
+            gran = "call" if ctx.quick else "line"
+            r, n, _ = ts.run_schedule(fns, 0, (), gran)
+            r2, n2, _ = ts.run_schedule(fns, 1, (), gran)
+            if n != n2:
+                ctx.note(f"threads:{name}: point counts differ between the two 0-preemption orders {n} vs {n2}")
+            npts = [max(n[0], n2[0]), max(n[1], n2[1])]
+            sch = ts.schedules(npts, 1)
+            if not ctx.quick and name == "canon":
+                rc, nc, _ = ts.run_schedule(fns, 0, (), "call")
+                sch2 = [(s, sw) for s, sw in ts.schedules(nc, 2) if len(sw) == 2]
+                cases += [(name, "call", s, sw) for s, sw in sch2]
+                bounds[name + ":p2"] = {"granularity": "call", "points": nc, "schedules": len(sch2)}
+            cases += [(name, gran, s, sw) for s, sw in sch]
+            bounds[name] = {"granularity": gran, "points": npts, "preemptions": 1, "schedules": len(sch)}
+        ctx.coverage.setdefault("bounds", {})["threads"] = bounds
+        st = ctx.explore("threads", cases, check_thread_case, chunk=50)
+        return st
+    finally:
+        os.chdir(old)
+        wd = _TW.get("__wd")
+        if wd:
+            shutil.rmtree(wd, ignore_errors=True)
+
+
 def replay(ctx, rp):
-    return []   # configurations/histories are re-run as a whole: ./check C06 quick
+    """thread schedules are replayed exactly (same pair, granularity, start thread, switch points);
+    configurations/histories are re-run as a whole: ./check C06 quick"""
+    if rp.get("subcheck") != "threads":
+        return []
+    c = rp["case"]
+    root = tempfile.mkdtemp(prefix="vt-c06r-", dir="/dev/shm")
+    old = os.getcwd()
+    try:
+        dirs = setup_dirs(root)
+        os.chdir(dirs["A"])
+        fns = _thread_work(dirs)[c["pair"]]
+        for _ in range(2):
+            ref = [fns[0](), fns[1]()]
+        _TREF[c["pair"]] = ref
+        case = (c["pair"], c["granularity"], c["start"], tuple(tuple(x) for x in c["switches"]))
+        a = check_thread_case(case).violations
+        b = check_thread_case(case).violations       # the same schedule must give the same observation
+        if [v["observed"] for v in a] != [v["observed"] for v in b]:
+            raise RuntimeError("replay divergence: the same schedule gave two different observations")
+        return a
+    finally:
+        os.chdir(old)
+        shutil.rmtree(root, ignore_errors=True)
+        wd = _TW.get("__wd")
+        if wd:
+            shutil.rmtree(wd, ignore_errors=True)
 
 
 def trig_holo_value(case, v):
